@@ -21,8 +21,8 @@
 #undef private
 namespace photon {
 enum { KW_NONE = 0, KW_MUTEX, KW_CV, KW_SEM, KW_SLEEP, KW_SPIN };
-enum { KF_NONE = 0, KF_NOTIFIED, KF_TIMEDOUT };
-static uint8_t K_kind[KN], K_flag[KN]; static bool K_finite[KN], K_lock_finite[KN];
+enum { KF_NONE = 0, KF_NOTIFIED, KF_TIMEDOUT, KF_INTR };
+static uint8_t K_kind[KN], K_flag[KN]; static int K_err[KN]; static bool K_finite[KN], K_lock_finite[KN];
 static void* K_obj[KN]; static mutex* K_mtx[KN]; static spinlock* K_spin[KN]; static uint64_t K_need[KN]; static unsigned K_seq[KN], K_seqno;
 static inline thread* K_tid(int i) { return (thread*)(uintptr_t)(0x1000 + 16 * i); }   // opaque, never dereferenced
 static inline int K_earliest(int kind, void* obj)
@@ -50,7 +50,7 @@ void verif_set_tid(uint32_t);
 uint32_t verif_get_tid();
 #define K_ME ((int)verif_get_tid())
 
-NOINL void K_init() { photon::now = 1000; }
+NOINL void K_init() { photon::now = 1000; for (int i = 0; i < KN; i++) { verif_set_tid(i); CURRENT = K_tid(i); } verif_set_tid(0); }
 // a thread that only needs a spinlock back (after a cv.wait(spinlock)) is runnable as soon as the spinlock is free; it takes it when picked
 NOINL uint32_t K_is_blocked(uint32_t i) { return K_kind[i] != KW_NONE && !(K_kind[i] == KW_SPIN && !K_spin[i]->locked()); }
 NOINL void K_try_unblock(uint32_t i) { if (K_kind[i] == KW_SPIN && !K_spin[i]->locked()) { K_spin[i]->lock(); K_kind[i] = KW_NONE; } }
@@ -108,7 +108,17 @@ NOINL int K_cv_wait_end()
 {
     int me = K_ME;
     if (K_flag[me] == KF_TIMEDOUT) { errno = ETIMEDOUT; return -1; }
+    if (K_flag[me] == KF_INTR) { errno = K_err[me]; return -1; }
     return 0;
+}
+// ---- thread_interrupt(th, err): cuts a blocked thread's wait short with the interrupter's errno (a cv waiter still re-acquires its lock).
+// An interrupt aimed at a thread that is not blocked is dropped here (the real runtime stores it for a yielded thread: outside this contract).
+NOINL void K_thread_interrupt(thread* th, int err)
+{
+    for (int i = 0; i < KN; i++) if (th == K_tid(i)) {
+        if (K_kind[i] == KW_CV) { K_flag[i] = KF_INTR; K_err[i] = err; if (K_mtx[i]) K_want_mutex(i, K_mtx[i]); else K_kind[i] = KW_SPIN; }
+        else if (K_kind[i] == KW_SEM || K_kind[i] == KW_SLEEP) { K_flag[i] = KF_INTR; K_err[i] = err; K_kind[i] = KW_NONE; }
+    }
 }
 NOINL thread* K_cv_notify_one(waitq* c, int)
 {
@@ -150,6 +160,7 @@ NOINL int K_sem_wait_end()
 {
     int me = K_ME;
     if (K_flag[me] == KF_TIMEDOUT) { errno = ETIMEDOUT; return -1; }
+    if (K_flag[me] == KF_INTR) { errno = K_err[me]; return -1; }
     return 0;
 }
 // semaphore::signal() is inline in thread.h: it adds to m_count itself and then calls try_resume(total)
